@@ -8,6 +8,8 @@ import StarsimModel.Model.Slots
 import StarsimModel.Props.C04
 import StarsimModel.Lemmas.Grow
 import StarsimModel.Generated.GrowOps
+import StarsimModel.Lemmas.History
+import StarsimModel.Generated.HistoryWriters
 
 namespace StarsimModel.C03
 open StarsimModel.Slots StarsimModel.Rng
@@ -283,6 +285,66 @@ theorem C03_grow_order_counterexample :
   decide
 
 /-! ### Non-vacuity -/
+
+
+/-! ### The saved generator states (`Dist.history`): an absolute jump needs saved state 0 to stay the initial state
+    (Model/History.lean) -/
+
+open StarsimModel.Hist in
+/-- The statements of the whole package that write a `history` attribute (REGENERATED from the source on every run) are the
+    ones the model accounts for: emptied only while a distribution is built / initialised, appended to by `make_history`,
+    dropped by the post-run `Sim.shrink`.  Nothing trims, pops, slices, rebinds or aliases the list. -/
+theorem C03_history_writers_modelled : Gen.historyWriters.all Site.modelled = true := by decide
+
+open StarsimModel.Hist in
+/-- `Dist.jump` resets to saved state 0 (REGENERATED: `reset(state=0)`, `jump` calls `reset()` with no argument). -/
+theorem C03_jump_resets_to_first_saved : Gen.jumpResetsToSaved = 0 := by decide
+
+open StarsimModel.Hist in
+/-- **Saved state 0 is the initial state for ever**: after initialisation, under every sequence of calls (any sizes),
+    resets (any index) and jumps, of any length. -/
+theorem C03_history_head_invariant {σ : Type} (adv jumped : σ → Nat → σ) (s0 : σ) (ops : List Hist.Op)
+    (hops : ∀ op ∈ ops, op.inCode = true) :
+    (Hist.run adv jumped (Hist.init s0) ops).hist[0]? = some s0 :=
+  run_head adv jumped ops (Hist.init s0) s0 hops (by simp [Hist.init])
+
+open StarsimModel.Hist in
+/-- **Where a timestep's stream starts does not depend on how much was drawn before**: after ANY earlier sequence of calls,
+    resets and jumps (any number of calls: one, a thousand and one, a million), a jump to `j` leaves the generator at
+    `jumped s0 j` -- the state a freshly initialised distribution jumped straight to `j` has. -/
+theorem C03_jump_indep_of_saved_history {σ : Type} (adv jumped : σ → Nat → σ) (s0 : σ) (ops : List Hist.Op) (j : Nat)
+    (hops : ∀ op ∈ ops, op.inCode = true) :
+    (Hist.run adv jumped (Hist.init s0) (ops ++ [.jump j])).cur = jumped s0 j
+    ∧ (Hist.run adv jumped (Hist.init s0) (ops ++ [.jump j])).cur = (Hist.run adv jumped (Hist.init s0) [.jump j]).cur := by
+  have h := C03_history_head_invariant adv jumped s0 ops hops
+  have e : (Hist.run adv jumped (Hist.init s0) (ops ++ [.jump j])).cur = jumped s0 j := by
+    rw [run_append]
+    have e1 : Hist.run adv jumped (Hist.run adv jumped (Hist.init s0) ops) [.jump j]
+        = Hist.step adv jumped (Hist.run adv jumped (Hist.init s0) ops) (.jump j) := rfl
+    rw [e1]; simp only [Hist.step, h]
+  exact ⟨e, by rw [e]; simp [Hist.run, Hist.step, Hist.init]⟩
+
+open StarsimModel.Hist in
+/-- Two arbitrary earlier histories give the same stream start at the same target. -/
+theorem C03_jump_same_for_all_histories {σ : Type} (adv jumped : σ → Nat → σ) (s0 : σ) (ops ops' : List Hist.Op) (j : Nat)
+    (hops : ∀ op ∈ ops, op.inCode = true) (hops' : ∀ op ∈ ops', op.inCode = true) :
+    (Hist.run adv jumped (Hist.init s0) (ops ++ [.jump j])).cur = (Hist.run adv jumped (Hist.init s0) (ops' ++ [.jump j])).cur := by
+  rw [(C03_jump_indep_of_saved_history adv jumped s0 ops j hops).1, (C03_jump_indep_of_saved_history adv jumped s0 ops' j hops').1]
+
+open StarsimModel.Hist in
+/-- The invariant is needed: a writer that keeps only the most recent saved states (an operation the code does NOT have)
+    makes the stream start depend on the number of earlier calls. -/
+theorem C03_history_trim_counterexample :
+    (Hist.run advP jumpedP (Hist.init (0, [])) [.call 3, .call 1, .trim 1, .jump 5]).cur ≠ jumpedP (0, []) 5
+    ∧ (Hist.run advP jumpedP (Hist.init (0, [])) [.call 3, .trim 1, .jump 5]).cur
+        ≠ (Hist.run advP jumpedP (Hist.init (0, [])) [.call 3, .call 1, .trim 1, .jump 5]).cur := by decide
+
+open StarsimModel.Hist in
+example : (Hist.run advP jumpedP (Hist.init (0, [])) [.call 3, .jump 2, .call 1, .call 4, .reset 1, .jump 7]).cur = (7, [])
+    ∧ (Hist.run advP jumpedP (Hist.init (0, [])) [.call 3, .jump 2, .call 1, .call 4, .reset 1, .jump 7]).hist
+        = [(0, []), (0, []), (2, []), (2, [1])] := by decide
+open StarsimModel.Hist in
+example : ∀ op ∈ [Hist.Op.call 3, .jump 2, .call 1, .reset 1], op.inCode = true := by decide
 
 open StarsimModel.Grow in
 example : (grow Gen.growOps (fun s => 100 + s) ⟨[0, 1, 2], [7, 7, 7]⟩ [9, 4]).vals = [7, 7, 7, 109, 104] := by decide
